@@ -13,6 +13,7 @@ UNIT_CONFIGS = {
     'portable': [('', ('std',))],
     'retain': [('', ('std',))],
     'registry_impls': [('', ('std',))],
+    'codec': [('', ('std',))],
     'build': [('-docs', ('std', 'docs')), ('-nodocs', ('std',))],
     'metatype': [('', ('std',))],
     'alias': [('', ('std',))],
@@ -38,6 +39,10 @@ STD_ASSUMPTIONS = {
     'A9': 'ASSUMED: MetaType::type_info() is deterministic and depends only on the declared identity (info_of(type_id)) - the coherence half of C16 for '
           'user-written impls; MetaType is opaque in the registry units (rule R9), its accessors carry the contracts proved in unit metatype',
     'A10': 'ASSUMED effect of <TypeId as Hash>::hash (uninterpreted relation hashed(before, id, after))',
+    'CODEC': 'ASSUMED model of the dependency parity-scale-codec (declaration-only stand-in module `scale` in the codec unit): traits Encode / Decode / Input / Output '
+             'with the contracts "encode_to appends enc(self)", "decode is sound, canonical and complete w.r.t. denc", and the encodings of u8, u32 (LE), Compact<u32> '
+             '(1/2/4/5-byte classes), String (compact byte length + UTF-8, utf8 uninterpreted), Option, Vec, PhantomData, &T. The codec derive is trusted to emit what rustc '
+             'expands (the expansion itself is taken from rustc on every run).',
     'PARTIAL': 'termination of Registry::register_type is NOT proved (depends on finiteness of the Rust type graph); the registry recursion carries '
                'exec_allows_no_decreases_clause, so the registry units are partial-correctness proofs; absence of stack overflow is not proved anywhere',
     'MODULAR': 'the mutual recursion register_type <-> into_portable is cut modularly into two Verus units (registry / registry_impls) sharing one contract text, '
@@ -120,14 +125,14 @@ PROPS = {
         assumptions=['A1', 'A5', 'A7', 'VSTD', 'TOOLS'],
     ),
     'C14': dict(
-        title='Decoding untrusted registry bytes or JSON never panics and is canonical (resolve clause only)',
+        title='Decoding untrusted registry bytes never panics and is canonical (SCALE decode and resolve clauses; JSON and memory not covered)',
         level='proof',
-        technique='Verus total-function contract on the extracted PortableRegistry::resolve (no precondition)',
-        level_text='resolve(id) is proved, for EVERY registry value (well-formed or not) and every u32, to return Some(entry at position id) when id is in range and None otherwise - it has no precondition, so it cannot panic.',
-        level_note='ONLY the resolve clause of C14 is claimed. Decoder totality / canonicity (code of parity-scale-codec and its derive; CBMC did not get through PortableRegistry::decode on 8 symbolic bytes in 16 min), JSON and memory proportionality are out of reach of the installed verifiers and are NOT covered.',
-        verus=[('portable', ['PortableRegistry::resolve'])],
+        technique='Verus: total-function contract on PortableRegistry::resolve; canonicity theorem and panic-freedom of the derive-generated decoders (no precondition, every callee precondition discharged)',
+        level_text='resolve(id) is proved, for EVERY registry value and every u32, to return Some(entry at position id) when id is in range and None otherwise; it has no precondition, so it cannot panic. The 17 derive-generated decode functions are verified without any precondition on the input: Verus discharges every callee precondition and arithmetic check in them, so the crate\'s own decoding code cannot panic on any byte string and returns Ok or Err. theorem_canonical: whatever decodes successfully re-encodes to exactly the bytes that were consumed.',
+        level_note='NOT covered: JSON deserialisation (serde), memory proportional to the input, and panic-freedom / totality of the dependency\'s primitive decoders (Vec, String, Compact ... are assumed to satisfy the Decode contract of the model, see C06). Stack depth is not considered.',
+        verus=[('portable', ['PortableRegistry::resolve']), ('codec', ['crate::scale::Decode for *::decode', 'tmpl::lemma_*', 'tmpl::theorem_canonical'])],
         kani_quick=[], kani_thorough=[],
-        assumptions=['VSTD', 'TOOLS'],
+        assumptions=['CODEC', 'VSTD', 'TOOLS'],
     ),
     'C16': dict(
         title='MetaType equality is type identity, and identities are coherent',
@@ -163,15 +168,25 @@ PROPS = {
         assumptions=['TOOLS'],
     ),
     'C06': dict(
-        title='SCALE wire format of the registry is the published V14 layout (encode side)',
-        level='other',
-        technique='Kani: real derived Encode compared byte for byte with an independent spec encoder; loop-free full-domain harnesses for leaves (complete), bounded shapes for containers',
-        level_text='Encode side only. Complete (loop-free, full domain): compact ids in all four size classes, all 15 primitive tags, definition tags 2,3,5,6,7 with array = u32 LE length then id and bit-sequence = store then order. Bounded (container lengths <= 1-2, marker strings, symbolic scalars): field, variant, definition tags 0,1,4, type, parameter, path, registry prefix.',
-        level_note='The decoder half of the statement is out of reach (derived Decode under CBMC did not finish in > 15 min) and is NOT claimed. String contents are concrete distinct markers (symbolic strings make CBMC take > 13 min per field), lengths 0-2. Dependency code (parity-scale-codec Encode impls for Vec/Option/String/Compact) is executed, not assumed.',
-        explanation='Kani/CBMC executes the real derived Encode impls symbolically and compares with an independent encoder written from the layout; complete for leaves, bounded for containers',
-        verus=[],
-        kani_quick=['enc_symbol_compact', 'enc_def_primitive', 'enc_def_sequence', 'enc_def_compact', 'enc_def_array', 'enc_def_tuple', 'enc_field_a'],
+        title='SCALE wire format of the registry is the published V14 layout, byte for byte',
+        level='proof',
+        technique='Verus contracts on the code generated by the codec derive (taken from rustc -Zunpretty=expanded of the working tree): each encode_to appends exactly the published layout, each decode is sound / canonical / complete for it; assumed model of the dependency primitives',
+        level_text='For all 17 types the registry is made of, the derive-generated encode_to is proved to append exactly enc(self), where enc is the published V14 layout written compositionally from the statement (definition tags 0..7, primitive tags 0..14, array = u32 LE length then id, bit-sequence = store then order, field / variant / parameter / type / entry member order, compact ids, u8 index) - for ALL registries, strings and ids, no bound. The derive-generated decoders are proved sound, canonical and complete for the same layout (lemma_registry: the decoder\'s denc equals the encoder\'s enc), i.e. an independent decoder written from the layout agrees with the library.',
+        level_note='Assumed: the model of parity-scale-codec\'s own Encode/Decode impls for u8, u32, Compact<u32>, String, Option, Vec, PhantomData, &T and of its Input/Output traits (module `scale` in contracts/codec.vrs) - dependency code, not verified. Rules R14 (compile-time `const _` assertion blocks dropped), R15 (::scale:: paths), R16 (immediately invoked `move` closures in enum decoders inlined). Kani cross-check of the real dependency on the leaves (complete harnesses) and native comparison with an independent encoder/decoder on enumerated registries run alongside and are listed as bounded.',
+        verus=[('codec', ['crate::scale::Encode for *::encode_to', 'crate::scale::Decode for *::decode', 'tmpl::lemma_*'])],
+        # the complete Kani leaves execute the REAL dependency (Compact<u32>, u32, u8 encoders): they cross-check the assumed model on its scalars
+        kani_quick=['enc_symbol_compact', 'enc_def_primitive', 'enc_def_array'],
         kani_thorough=['enc_symbol_compact', 'enc_def_primitive', 'enc_def_sequence', 'enc_def_compact', 'enc_def_array', 'enc_def_tuple', 'enc_field_a', 'enc_def_bitsequence'],
-        assumptions=['TOOLS'],
+        assumptions=['CODEC', 'VSTD', 'TOOLS'],
+    ),
+    'C07': dict(
+        title='SCALE round trip of a registry is lossless, exact and injective',
+        level='proof',
+        technique='Verus: round-trip, canonicity and injectivity theorems over the verified contracts of the derive-generated encode_to / decode functions',
+        level_text='theorem_roundtrip: an input that starts with the bytes the library encoder writes for a registry decodes to exactly that registry and leaves exactly the rest (for every PortableRegistry value, well-formed or not). Encoding is deterministic because encode_to is proved to append the value of the spec function enc. theorem_injective: two registries with the same encoding are equal (both are what the verified decoder returns on it). The theorems call the real extracted decoder, whose contract (sound, canonical, complete) is proved for all 17 generated decode functions.',
+        level_note='Assumed: the model of the dependency primitives (see C06) - in particular that the primitive decoders are complete and canonical (true of parity-scale-codec 3: Compact rejects non-minimal encodings, String validates UTF-8). Injectivity is stated for encodings consumed by an Input; any byte string can be one.',
+        verus=[('codec', ['crate::scale::Encode for *::encode_to', 'crate::scale::Decode for *::decode', 'tmpl::lemma_*', 'tmpl::theorem_*'])],
+        kani_quick=[], kani_thorough=[],
+        assumptions=['CODEC', 'VSTD', 'TOOLS'],
     ),
 }
